@@ -1,0 +1,20 @@
+//go:build verif
+
+package deprecatedstate
+
+// Contracts for gocv (contract-based deductive verification, /verif).
+
+//@ opaque type github.com/NethermindEth/juno/core/felt.Felt
+
+//@ ghost func ped(a felt.Felt, b felt.Felt) felt.Felt
+//@ extern func github.com/NethermindEth/juno/core/crypto.Pedersen
+//@   requires a != nil && b != nil
+//@   ensures result == ped(*a, *b)
+
+// Contract leaf of the global state trie, legacy back-end: the same formula as
+// core/state.(*stateContract).commitment - H(H(H(class_hash, storage_root), nonce), 0).
+//@ func calculateContractCommitment
+//@   props C01
+//@   arith int
+//@   requires storageRoot != nil && classHash != nil && nonce != nil
+//@   ensures result == ped(ped(ped(*classHash, *storageRoot), *nonce), felt.Zero)
